@@ -337,8 +337,8 @@ QUERY["any"] = [1, True, 1.0, "a", None, 0, 2.5, "zz", False]
 OTHER_POOL["any"] = ["a", "b", "1"]
 # "otherfield": a typed dict of another field held by another configuration; "otherfieldsame": of another field
 # of the SAME configuration object; "duck": an object with keys() and __getitem__ only; "mappingsub": a
-# collections.abc.Mapping subclass that is not a dict; "pairs2": a list of 2-element lists
-SRC_KINDS = ["none", "dict", "pairs", "pairs2", "iter", "gen", "mapping", "mappingproxy", "duck", "mappingsub", "compat",
+# collections.abc.Mapping subclass that is not a dict; "pairs2": a list of 2-element lists; "tpairs": a tuple of pairs
+SRC_KINDS = ["none", "dict", "pairs", "pairs2", "tpairs", "iter", "gen", "mapping", "mappingproxy", "duck", "mappingsub", "compat",
              "othercfg", "otherfield", "otherfieldsame", "self"]
 OTHERFIELD_KINDS = ("otherfield", "otherfieldsame")
 
@@ -373,7 +373,7 @@ def _mapsub(d):
     return MapSub(d)
 CLASH_NAMES = ("iterable", "self")     # parameter names of DictProxy.update (open finding F51)
 CLASH_VALUES = {"si": [0, 5, None, "7", 100], "ab": [False, True, None, 0, 1]}
-OR_KINDS = ["dict", "pairs", "compat", "othercfg", "otherfield", "otherfieldsame", "self"]   # `|` with other mappings is their __ror__
+OR_KINDS = ["dict", "pairs", "pairs2", "tpairs", "iter", "gen", "compat", "othercfg", "otherfield", "otherfieldsame", "self"]   # `|` with other mappings is their __ror__
 KW_KEYS = {"str": ["a", "B", "c ", "zz"], "int": ["7", "5", "abc", "100", "101"], "any": ["a", "b", "k"]}
 
 
@@ -584,7 +584,7 @@ def _dsrc_contents(dk, src):
         return []
     if skind in ("dict", "mapping", "mappingproxy", "duck", "mappingsub"):
         return _dict_collapse(ps)
-    if skind in ("pairs", "pairs2", "iter", "gen"):
+    if skind in ("pairs", "pairs2", "tpairs", "iter", "gen"):
         return [tuple(p) for p in ps]
     if skind in ("compat", "othercfg"):
         h = schema()
@@ -609,7 +609,7 @@ def _g_dsrc(dk, src):
         return "DSSelf"
     con = {"dict": "DSDict", "pairs": "DSPairs", "iter": "DSIter", "gen": "DSIter", "mapping": "DSMapping",
            "mappingproxy": "DSMapping", "compat": "DSCompat", "othercfg": "DSSameField", "otherfield": "DSProxyOther",
-           "otherfieldsame": "DSProxyOther", "duck": "DSMapping", "mappingsub": "DSMapping", "pairs2": "DSPairs"}[skind]
+           "otherfieldsame": "DSProxyOther", "duck": "DSMapping", "mappingsub": "DSMapping", "pairs2": "DSPairs", "tpairs": "DSPairs"}[skind]
     return "(%s %s)" % (con, _g_pairs(_dsrc_contents(dk, src)))
 
 
@@ -672,13 +672,27 @@ def _g_dict_case(c):
                                        g_list(c["ops"], lambda o: _g_dop(dk, o)))
 
 
+def _plain_data(v):
+    """results must be plain data; an object of any other class (e.g. what another operand's reflected method
+    handed back) is observed as `Other(9)`: never a crash of the harness, never equal to a model value"""
+    if v is None or isinstance(v, (bool, int, float, str, bytes, Proxy, Other)):
+        return v
+    if type(v) is list:
+        return [_plain_data(x) for x in v]
+    if type(v) is tuple:
+        return tuple(_plain_data(x) for x in v)
+    if type(v) is dict:
+        return {k: _plain_data(x) for k, x in v.items()}
+    return Other(9)
+
+
 def _enc_dict_ret(r, recv, fid_of):
     from cincoconfig.fields.dict_field import DictProxy
     if r is recv:
         return Other(0)
     if isinstance(r, DictProxy):
         return Proxy(fid_of(r), dict(r))
-    return r
+    return _plain_data(r)
 
 
 def _apply_dict(obj, op, arg, kw):
@@ -810,7 +824,7 @@ def _impl_dict(c):
             else:
                 raw = [tuple(x) for x in ps]
                 parg = {"dict": dict, "pairs": list, "iter": iter, "gen": lambda v: (x for x in v),
-                        "pairs2": lambda v: [list(x) for x in v], "duck": _Duck, "mappingsub": _mapsub,
+                        "pairs2": lambda v: [list(x) for x in v], "tpairs": tuple, "duck": _Duck, "mappingsub": _mapsub,
                         "mapping": lambda v: collections.UserDict(dict(v)),
                         "mappingproxy": lambda v: types.MappingProxyType(dict(v))}[skind](raw)
             if k == "or":
@@ -818,7 +832,8 @@ def _impl_dict(c):
                 if skind in ("othercfg", "otherfield", "otherfieldsame", "compat"):
                     targ = dict(contents)
                 elif skind not in ("none", "self"):
-                    targ = {"dict": dict, "pairs": list, "iter": iter, "gen": iter,
+                    targ = {"dict": dict, "pairs": list, "iter": iter, "gen": iter, "tpairs": tuple,
+                            "pairs2": lambda v: [list(x) for x in v], "duck": _Duck, "mappingsub": _mapsub,
                             "mapping": lambda v: collections.UserDict(dict(v)),
                             "mappingproxy": lambda v: types.MappingProxyType(dict(v))}[skind]([tuple(x) for x in ps])
             elif k == "new" and skind == "othercfg":
@@ -1092,7 +1107,7 @@ def _enc_list_ret(r, recv, fid_of):
         return Other(0)
     if isinstance(r, ListProxy):
         return Proxy(fid_of(r), list(r))
-    return r
+    return _plain_data(r)
 
 
 def _apply_list(obj, op, arg):
